@@ -149,14 +149,34 @@ def scenario(task):
                         pass
             res.append((f'{which}[{k}]', r, model))
     # f_and_g_prod must be the same terms as f and g_prod
+    def same_value(x, w):
+        # different float operations are fine (the property is about values); a different VALUE is not
+        side_ = []
+        s_ = z3.Solver(); s_.set('timeout', 60000)
+        zx = dag.to_z3(x, zenv, memo, side_); zw = dag.to_z3(w, zenv, memo, side_)
+        s_.add(*[c for _, c in side_]); s_.add(zx != zw)
+        r_ = str(s_.check())
+        model_ = {}
+        if r_ == 'sat':
+            mdl_ = s_.model()
+            for dcl in mdl_.decls():
+                try:
+                    val = mdl_[dcl]; model_[dcl.name()] = float(Fraction(val.numerator_as_long(), val.denominator_as_long()))
+                except Exception:
+                    pass
+        return r_, model_
     for k, (x, w) in enumerate(zip(o_fg[0].sym.reshape(-1), out['f'].sym.reshape(-1))):
         if x is not w:
-            res.append((f'f_and_g_prod.f[{k}] differs from f', 'structure', {}))
-            break
+            r_, model_ = same_value(x, w)
+            if r_ != 'unsat':
+                res.append((f'f_and_g_prod.f[{k}]', r_, model_))
+                break
     for k, (x, w) in enumerate(zip(o_fg[1].sym.reshape(-1), out['g_prod'].sym.reshape(-1))):
         if x is not w:
-            res.append((f'f_and_g_prod.g[{k}] differs from g_prod', 'structure', {}))
-            break
+            r_, model_ = same_value(x, w)
+            if r_ != 'unsat':
+                res.append((f'f_and_g_prod.g[{k}]', r_, model_))
+                break
     # twin
     x = out['f'].sym.reshape(-1)[0]
     side = []
@@ -234,7 +254,9 @@ def replay(data):
     which = r['which'].split('[')[0]
     with torch.no_grad():
         got = {'f': lambda: adj.f(t, y_aug), 'g_prod': lambda: adj.g_prod(t, y_aug, v),
-               'gdg': lambda: adj.g_prod_and_gdg_prod(t, y_aug, v, v2)[1]}[which]()
+               'gdg': lambda: adj.g_prod_and_gdg_prod(t, y_aug, v, v2)[1],
+               'f_and_g_prod.f': lambda: adj.f_and_g_prod(t, y_aug, v)[0], 'f_and_g_prod.g': lambda: adj.f_and_g_prod(t, y_aug, v)[1]}[which]()
+    which = {'f_and_g_prod.f': 'f', 'f_and_g_prod.g': 'g_prod'}.get(which, which)
     want = oracle(st, nt, sde2, params2, y2, a2, t2, vv, vv2, B, d, mm, which)
     wv = [dag.to_float(w, mk2.env) for w in want]
     err = max(abs(float(g_) - w_) for g_, w_ in zip(got.reshape(-1).tolist(), wv))
